@@ -71,6 +71,7 @@ STICKY = {
     "h_dump_all": S1 + "DUMP\n -all\nEND\n",
     "h_print_off": "PRINT\n -selected_output false\n -dump false\n" + S1 + "SELECTED_OUTPUT 1\n -reset false\n -pH\nDUMP\n -solution 1\nEND\n",
     "h_stagnant": "SOLUTION 0\n Na 1\n Cl 1\nSOLUTION 1-2\n K 1\n Cl 1\nSOLUTION 4-5\n K 1\n Cl 1\nTRANSPORT\n -cells 2\n -shifts 2\n -time_step 1000\n -stagnant 1 6.8e-6 0.3 0.1\nEND\n",
+    "h_blocks": "MEAN_GAMMAS\n Zsalt Na+ 1 Cl- 1\nRATE_PARAMETERS_PK\n Zmin -30 0 0 -13.4 90.9 -30 0 0\nGAS_BINARY_PARAMETERS\n CO2(g) N2(g) 0.5\n" + S1 + "USER_PRINT\n10 PRINT MEANG(\"Zsalt\"), RATE_PK(\"Zmin\")\nEND\n",
     "h_isotopes": None,    # ex20a on iso.dat (filled below)
 }
 for _n in W.WORK:
@@ -121,12 +122,15 @@ PROBES = {
     "p_added_rate": S1 + "KINETICS 1\n zrate\n -formula NaCl 1\n -m0 1\n -steps 10\nEND\n",
     "p_added_calc": S1 + "USER_PRINT\n10 PRINT CALC_VALUE(\"zcalc\")\nEND\n",
     "p_use_old": "USE solution 1\nUSE exchange 1\nEND\n",
+    "p_meang_db": S1 + "USER_PRINT\n10 PRINT MEANG(\"CaCl2\")\nEND\n",
+    "p_meang_added": S1 + "USER_PRINT\n10 PRINT MEANG(\"Zsalt\")\nEND\n",
+    "p_ratepk_added": S1 + "USER_PRINT\n10 PRINT RATE_PK(\"Zmin\")\nEND\n",
     "p_run_cells": "RUN_CELLS\n -cells 1\nEND\n",
     "p_hard": "SOLUTION 1\n pH 7\n pe 4\n Fe 1\n S(6) 1\n Na 10\n Cl 10\n C 2\nEQUILIBRIUM_PHASES 1\n Pyrite 0 0\n Goethite 0 0\n Calcite 0 1\n CO2(g) -3.5 10\nEND\n",
     "p_nosel": S1 + "END\n",
     "p_surface": S1 + "SURFACE 1\n Hfo_w 1e-3 600 1\n -equilibrate 1\nEND\n",
 }
-ERR_PROBES = ("p_added_names", "p_added_rate", "p_use_old")
+ERR_PROBES = ("p_added_names", "p_added_rate", "p_use_old", "p_meang_db", "p_meang_added", "p_ratepk_added")
 PROBES_ANYDB = ["p_nosel", "p_basic", "p_use_old", "p_run_cells", "p_dump"]
 PROBE_KEYS = sorted(PROBES)
 
